@@ -2,7 +2,7 @@
 
 import ast
 
-from .. import roles
+from .. import iorules, roles
 from ..core import AnalysisError
 from ..src import arg_names, calls_in, unparse
 
@@ -16,7 +16,7 @@ LEVEL_TEXT = (
     "split, complex data writing both parts; the transformation dispatch covers exactly the documented modes."
 )
 LEVEL_NOTE = "Out of reach statically: the round trip itself, which goes through meshio's writers/readers and the file system."
-EXPLANATION = "rules TAG-PROVENANCE, MESH-ARRAYS, DATA-PLUMBING, TRANSFORM-MODES, TRANSFORM-FORMULAS"
+EXPLANATION = "rules TAG-PROVENANCE, MESH-ARRAYS, DATA-PLUMBING, TRANSFORM-MODES, TRANSFORM-FORMULAS, CAST-LOSSLESS, IMPORT-FALLBACK"
 ASSUMPTIONS = ["meshio stores and returns cell_data / point_data arrays unchanged under the keys used"]
 
 IO = "bempp_cl/api/grid/io.py"
@@ -143,6 +143,8 @@ def run(ctx):
     r4.check(lits == {"real", "imag", "abs", "abs_squared", "log_abs"} and has_else_call and none_first, "_transform_array", IO, "_transform_array", tf.lineno,
              "transformation modes %s" % sorted(lits), "dispatch covers %s (callable fallback: %s, None passthrough: %s)" % (sorted(lits), has_else_call, none_first))
     transform_formulas(ctx)
+    iorules.cast_widths(ctx)
+    iorules.import_fallback(ctx, keys)
 
 
 # ---------------------------------------------------------------- the transformations as formulas
